@@ -15,6 +15,10 @@ def parseNs : String → Option Ns
 def parseLock (name : String) : Option Lock :=
   if name == "pubd-update" then some .pubdUpdate
   else if name == "rsync" then some .rsync
+  else if name == "history-cache" then some .historyCache
+  else if name == "status-cache" then some .statusCache
+  else if name == "signer-pending" then some .signerPending
+  else if name == "signer-handle" then some .signerHandle
   else match name.splitOn ":" with
     | [kind, rest] =>
       if kind != "kv" && kind != "kvr" then none else
